@@ -1,14 +1,45 @@
 /-
   Props/C13.lean — property theorems for C13 (symbol tables describe the emitted program).
 
-  Proved here, for every CLVM tree and any hash function: `pathToFunction` (the search
-  `path_to_function` in compiler.rs performs) returns a path that really selects a subtree
-  with the requested tree hash, and finds one whenever such a subtree exists.
+  FULL PROPERTY (properties.jsonl): for every successful compilation that reports symbols
+  (all modern dialects, optimised or not, every language feature): whenever an entry's key is
+  the tree hash of code occurring in the emitted program, the entry's value is the source name
+  of the function that code implements, `<key>_arguments` is that function's argument list, and
+  extracting the code through the entry and running it gives what the source-level call gives;
+  in unoptimised builds every reachable non-inline function has such an entry and its code
+  occurs in the program.
+
+  PROVED HERE (kernel-checked, all inputs):
+  * for every CLVM tree and hash function: `path_to_function` is sound and complete
+    (`path_to_function_correct`, `path_to_function_complete`);
+  * `…_partial`, for the CORE language of Lang/Core.lean (mod + non-inline, possibly recursive
+    functions with arbitrary parameter patterns + operators + lazy `if` + calls), NON-OPTIMISING
+    build, every well-formed core program (`Core.progWF`), every hash function `H`:
+    the table `Core.compileCoreSyms` returns next to the emitted program — it is byte-tied to the
+    real `compile_file` table and to the real `extract_program_and_env` / `path_to_function` /
+    `rewrite_in_program` by `modeld coresyms` vs `cvh coresyms` — satisfies
+      - truth (`symbol_names_right_code_partial`, needs injectivity of the tree hash),
+      - hash-level truth without injectivity (`symbol_entry_sound_partial`),
+      - presence (`symbols_present_partial`, `symbols_present_unique_partial`),
+      - no entries for tree-shaken functions (`no_entry_for_dead_function_partial`),
+      - `__chia__main_arguments` (`main_arguments_recorded_partial`).
+  * the presence clause as literally stated ("EVERY reachable function has an entry naming it")
+    is FALSE for the unchanged compiler when two live functions compile to identical code:
+    the table is keyed by code hash, the later `add_defun` overwrites the earlier
+    (`identical_code_loses_an_entry`, witness `dupProg`); the presence theorems therefore name
+    the function that owns the entry (a live function with the same code hash) and give the
+    literal statement under the hypothesis that no other live function has that code hash.
+  What is missing for the full property: inline functions, let/assign, lambdas, constants,
+  macros, optimising builds and the classic compiler are outside `Core`; they are decided by the
+  differential oracle of tools/props/c13.py only.
 -/
 import ChialispModel.Lang.Symbols
+import ChialispModel.Lang.CoreSymbols
 import ChialispModel.Proofs.SymbolsLemmas
+import ChialispModel.Proofs.CoreSymbolsLemmas
 
 namespace C13
+open Core
 
 /-- a path returned by `path_to_function` selects a subtree with the requested hash. -/
 theorem path_to_function_correct (H : Bytes → Bytes) (prog : Val) (h : Bytes) (p : Nat)
@@ -21,5 +52,199 @@ theorem path_to_function_complete (H : Bytes → Bytes) (prog sub : Val) (h : By
     (hs : Lang.Subtree sub prog) (hh : Val.treeHash H sub = h) :
     (Lang.pathToFunction H prog h).isSome = true :=
   Lang.pathToFunction_complete H prog sub h hs hh
+
+/-- TRUTH (core language, non-optimising build).  Let `tab` be the symbol table reported next
+    to the emitted program `prog`.  If `tab` has an entry `<h> ↦ val` and `sub` is any tree with
+    tree hash `h` (in particular a subtree of `prog`), then under injectivity of the tree hash:
+    `val` is the name of a live function `f` of the source, `sub` is exactly `f`'s compiled
+    code and occurs in `prog`, `<h>_arguments` is `f`'s parameter list, `<h>_left_env` is `1`,
+    and the program `compose_run_function` builds — `extract_program_and_env prog = (MAIN, QENV)`,
+    `p = path_to_function QENV h`, `rewrite_in_program p QENV = (a (a (q . p/2) QENV) (c QENV 1))`,
+    i.e. `sub` run on `(ENV . args)` with ENV the program's function table — evaluates to `v`
+    on `args` whenever the source-level call of `f` on `args` (`evalCore`, over ALL functions
+    of the source) returns `v`. -/
+theorem symbol_names_right_code_partial (ops : OpSem) (hops : OpsCore ops)
+    (H : Bytes → Bytes) (hH : Function.Injective (Val.treeHash H))
+    (P : Prog) (hwf : progWF P = true) (prog : Val) (tab : SymTab)
+    (hc : compileCoreSyms H P = some (prog, tab))
+    (h : Bytes) (val : SymVal) (hg : symGet (.fn h) tab = some val)
+    (sub : Val) (hsub : Val.treeHash H sub = h) :
+    ∃ f ∈ live P, val = .name f.name ∧ codeOf P f = some sub ∧ Lang.Subtree sub prog ∧
+      symGet (.arguments h) tab = some (.pattern f.params) ∧
+      symGet (.leftEnv h) tab = some .one ∧
+      ∃ qmain qenv p, extractProgramAndEnv prog = some (qmain, qenv) ∧
+        Lang.pathToFunction H qenv h = some p ∧
+        composeRunFunction H prog h = some (rewriteInProgram p qenv) ∧
+        ∀ n args v, evalCore ops P.fns n f.params args f.body = .ok v →
+          Clvm.Evaluates ops (rewriteInProgram p qenv) args v :=
+  Core.truth H P prog tab ops hops hH hwf hc h val hg sub hsub
+
+/-- hash-level truth, NO injectivity hypothesis: every `<h>` entry names a live function whose
+    compiled code has tree hash `h` and occurs in the emitted program; the `_arguments` and
+    `_left_env` entries of `h` are that function's. -/
+theorem symbol_entry_sound_partial (H : Bytes → Bytes) (P : Prog) (hwf : progWF P = true)
+    (prog : Val) (tab : SymTab) (hc : compileCoreSyms H P = some (prog, tab))
+    (h : Bytes) (val : SymVal) (hg : symGet (.fn h) tab = some val) :
+    ∃ f ∈ live P, ∃ c, val = .name f.name ∧ codeOf P f = some c ∧ Val.treeHash H c = h ∧
+      symGet (.arguments h) tab = some (.pattern f.params) ∧
+      symGet (.leftEnv h) tab = some .one ∧ Lang.Subtree c prog :=
+  Core.entry_sound H P prog tab hwf hc h val hg
+
+/-- PRESENCE (core language, non-optimising build): for every live function `f` (reachable
+    from the main expression) its compiled code occurs in the emitted program — inside the
+    function table `ENV` that `extract_program_and_env` returns (quoted), at the path `f`'s name
+    has in the balanced name tree of `compute_env_shape` — `path_to_function` finds a subtree
+    with its hash, and the entries `<h>`, `<h>_arguments`, `<h>_left_env` of its hash `h` exist
+    and describe a live function `g` whose code has the same hash (`g` is the LAST such
+    function: `add_defun` overwrites). -/
+theorem symbols_present_partial (H : Bytes → Bytes) (P : Prog) (hwf : progWF P = true)
+    (prog : Val) (tab : SymTab) (hc : compileCoreSyms H P = some (prog, tab))
+    (f : FnDef) (hf : f ∈ live P) :
+    ∃ code, codeOf P f = some code ∧ Lang.Subtree code prog ∧
+      (Lang.pathToFunction H prog (Val.treeHash H code)).isSome = true ∧
+      (∃ main env q, extractProgramAndEnv prog = some (qv main, qv env) ∧
+        Lang.nameLookup f.name (Lang.buildTree ((live P).map (·.name)) (((live P).map (·.name)).length + 1)) = some q ∧
+        Path.lookupNat q env = .ok code) ∧
+      ∃ g ∈ live P, ∃ cg, codeOf P g = some cg ∧ Val.treeHash H cg = Val.treeHash H code ∧
+        symGet (.fn (Val.treeHash H code)) tab = some (.name g.name) ∧
+        symGet (.arguments (Val.treeHash H code)) tab = some (.pattern g.params) ∧
+        symGet (.leftEnv (Val.treeHash H code)) tab = some .one :=
+  Core.present H P prog tab hwf hc f hf
+
+/-- …and if no OTHER live function compiles to code with the same hash, the entries are `f`'s
+    own: its name and its parameter list (the presence clause as the property states it). -/
+theorem symbols_present_unique_partial (H : Bytes → Bytes) (P : Prog) (hwf : progWF P = true)
+    (prog : Val) (tab : SymTab) (hc : compileCoreSyms H P = some (prog, tab))
+    (f : FnDef) (hf : f ∈ live P) (code : Val) (hcode : codeOf P f = some code)
+    (huniq : ∀ g ∈ live P, ∀ cg, codeOf P g = some cg → Val.treeHash H cg = Val.treeHash H code → g = f) :
+    Lang.Subtree code prog ∧
+    symGet (.fn (Val.treeHash H code)) tab = some (.name f.name) ∧
+    symGet (.arguments (Val.treeHash H code)) tab = some (.pattern f.params) ∧
+    symGet (.leftEnv (Val.treeHash H code)) tab = some .one := by
+  obtain ⟨code', h1, h2, _, _, g, hg, cg, h3, h4, h5, h6, h7⟩ := Core.present H P prog tab hwf hc f hf
+  rw [hcode] at h1
+  simp only [Option.some.injEq] at h1
+  subst h1
+  have := huniq g hg cg h3 h4
+  subst this
+  exact ⟨h2, h5, h6, h7⟩
+
+/-- NO DEAD ENTRIES: a function that is not reachable from the main expression (tree-shaken by
+    `frontend`) is named by no entry of the table. -/
+theorem no_entry_for_dead_function_partial (H : Bytes → Bytes) (P : Prog) (hwf : progWF P = true)
+    (prog : Val) (tab : SymTab) (hc : compileCoreSyms H P = some (prog, tab))
+    (d : FnDef) (hdead : (liveSet P).contains d.name = false) (k : SymKey) :
+    symGet k tab ≠ some (.name d.name) :=
+  Core.dead_absent H P prog tab hwf hc d hdead k
+
+/-- `__chia__main_arguments` records the mod's parameter list. -/
+theorem main_arguments_recorded_partial (H : Bytes → Bytes) (P : Prog)
+    (prog : Val) (tab : SymTab) (hc : compileCoreSyms H P = some (prog, tab)) :
+    symGet .mainArguments tab = some (.pattern P.params) := by
+  obtain ⟨main, entries, _, _, _, htab, _⟩ := Core.compileCoreSyms_spec H P prog tab hc
+  subst htab
+  exact Core.get_main_symbolsWith H _ _ _
+
+/-- the emitted program of `compileCoreSyms` is `compileCore`'s (the byte-tied compiler model
+    of C01), so `compile_core_correct_partial` speaks about the same program. -/
+theorem symbols_program_is_compiled_program (H : Bytes → Bytes) (P : Prog)
+    (prog : Val) (tab : SymTab) (hc : compileCoreSyms H P = some (prog, tab)) :
+    compileCore P = some prog := by
+  obtain ⟨_, _, _, _, _, _, h⟩ := Core.compileCoreSyms_spec H P prog tab hc
+  exact h
+
+/-- DEFECT OF THE UNCHANGED CODE w.r.t. the literal presence clause: two live functions with
+    different names whose compiled codes have the same tree hash (e.g. the same body over
+    renamed parameters) share ONE `<hash>` key, so they are never both named in the table. -/
+theorem identical_code_loses_an_entry (H : Bytes → Bytes) (P : Prog) (hwf : progWF P = true)
+    (prog : Val) (tab : SymTab) (hc : compileCoreSyms H P = some (prog, tab))
+    (f g : FnDef) (hf : f ∈ live P) (hg : g ∈ live P) (hne : f.name ≠ g.name)
+    (cf cg : Val) (hcf : codeOf P f = some cf) (hcg : codeOf P g = some cg)
+    (hsame : Val.treeHash H cf = Val.treeHash H cg) :
+    ¬ ((∃ k, symGet k tab = some (.name f.name)) ∧ (∃ k, symGet k tab = some (.name g.name))) :=
+  Core.same_code_one_entry H P prog tab hwf hc f g hf hg hne cf cg hcf hcg hsame
+
+-- non-vacuity ---------------------------------------------------------------------------------------
+
+/-- the injectivity hypothesis is satisfiable: a self-delimiting "hash". -/
+theorem injective_tree_hash_exists : ∃ H, Function.Injective (Val.treeHash H) :=
+  ⟨Core.selfDelim, Core.treeHash_selfDelim_injective⟩
+
+/-- `(mod (X Y) (defun f (N) (if (= N 1) 1 (* N (f (- N 1))))) (defun d ((A . B) C) (+ A B C))
+         (defun z (Q) (* Q 2)) (+ (f X) (d (c X Y) Y)))` — `f` recursive, `d` destructuring, `z` dead. -/
+def exProg : Prog :=
+  { params := .cons (.atom [88]) (.cons (.atom [89]) .nil),
+    fns := [
+      ⟨[102], .cons (.atom [78]) .nil,
+        .ite (.op 9 (.cons (.var [78]) (.cons (.lit (.atom [1])) .nil))) (.lit (.atom [1]))
+          (.op 18 (.cons (.var [78]) (.cons
+            (.call [102] (.cons (.op 17 (.cons (.var [78]) (.cons (.lit (.atom [1])) .nil))) .nil)) .nil)))⟩,
+      ⟨[100], .cons (.cons (.atom [65]) (.atom [66])) (.cons (.atom [67]) .nil),
+        .op 16 (.cons (.var [65]) (.cons (.var [66]) (.cons (.var [67]) .nil)))⟩,
+      ⟨[122], .cons (.atom [81]) .nil, .op 18 (.cons (.var [81]) (.cons (.lit (.atom [2])) .nil))⟩],
+    body := .op 16 (.cons (.call [102] (.cons (.var [88]) .nil))
+      (.cons (.call [100] (.cons (.op 4 (.cons (.var [88]) (.cons (.var [89]) .nil))) (.cons (.var [89]) .nil))) .nil)) }
+
+/-- a one-byte checksum as hash function: enough to run the model on examples. -/
+def toyH (b : Bytes) : Bytes := [b.foldl (fun a x => 31 * a + x) 7]
+
+example : progWF exProg = true := by decide
+/-- compilation succeeds and reports a table, whatever the hash function. -/
+example (H : Bytes → Bytes) : (compileCoreSyms H exProg).isSome = true := rfl
+example : (live exProg).map (·.name) = [[102], [100]] := by decide
+/-- the dead function is dead. -/
+example : (liveSet exProg).contains [122] = false := by decide
+/-- 2 live functions × 3 entries + `__chia__main_arguments`; the dead `z` has none. -/
+example : (symbolsOf toyH exProg).map (fun t => t.map (·.2)) =
+    some [.name [102], .one, .pattern (.cons (.atom [78]) .nil),
+          .name [100], .one, .pattern (.cons (.cons (.atom [65]) (.atom [66])) (.cons (.atom [67]) .nil)),
+          .pattern (.cons (.atom [88]) (.cons (.atom [89]) .nil))] := by
+  decide
+/-- `compose_run_function` succeeds on every function key of the example. -/
+example : ((compileCoreSyms toyH exProg).map (fun pt =>
+    pt.2.all (fun kv => match kv.1 with
+      | .fn h => (composeRunFunction toyH pt.1 h).isSome
+      | _ => true))) = some true := by
+  decide
+/-- all hypotheses of `symbol_names_right_code_partial` hold together for a concrete instance
+    (injective hash, the example program, the entry of its recursive function). -/
+example : ∃ prog tab h val sub, Function.Injective (Val.treeHash selfDelim) ∧ progWF exProg = true ∧
+    compileCoreSyms selfDelim exProg = some (prog, tab) ∧ symGet (.fn h) tab = some val ∧
+    Val.treeHash selfDelim sub = h := by
+  cases hc : compileCoreSyms selfDelim exProg with
+  | none =>
+    have : (compileCoreSyms selfDelim exProg).isSome = true := rfl
+    rw [hc] at this; simp at this
+  | some pt =>
+    obtain ⟨prog, tab⟩ := pt
+    have hwf : progWF exProg = true := by decide
+    obtain ⟨code, _, _, _, _, g, _, _, _, _, h5, _⟩ :=
+      symbols_present_partial selfDelim exProg hwf prog tab hc exProg.fns[0]
+        ((Core.live_mem exProg _).mpr ⟨List.Mem.head _, by decide⟩)
+    exact ⟨prog, tab, _, _, code, treeHash_selfDelim_injective, hwf, rfl, h5, rfl⟩
+
+/-- the run clause is not vacuous: the source-level call `(f 3)` of the recursive function
+    returns 6, so the extracted code run on `(ENV . (3))` must return 6. -/
+example : evalCore Ops.chiaOps exProg.fns 16 exProg.fns[0].params (.pair (.atom [3]) Val.nil)
+    exProg.fns[0].body = .ok (.atom [6]) := by
+  decide
+
+/-- witness of the presence defect:
+    `(mod (X) (defun F (A) (+ A 1)) (defun G (B) (+ B 1)) (+ (F X) (G X)))`. -/
+def dupProg : Prog :=
+  { params := .cons (.atom [88]) .nil,
+    fns := [
+      ⟨[70], .cons (.atom [65]) .nil, .op 16 (.cons (.var [65]) (.cons (.lit (.atom [1])) .nil))⟩,
+      ⟨[71], .cons (.atom [66]) .nil, .op 16 (.cons (.var [66]) (.cons (.lit (.atom [1])) .nil))⟩],
+    body := .op 16 (.cons (.call [70] (.cons (.var [88]) .nil)) (.cons (.call [71] (.cons (.var [88]) .nil)) .nil)) }
+
+example : progWF dupProg = true := by decide
+example : (live dupProg).map (·.name) = [[70], [71]] := by decide
+example : codeOf dupProg dupProg.fns[0] = codeOf dupProg dupProg.fns[1] ∧ (codeOf dupProg dupProg.fns[0]).isSome = true := by
+  decide
+/-- both functions are live, only `G` (the later one) is named; `F` has no entry. -/
+example : (symbolsOf toyH dupProg).map (fun t => t.map (·.2)) =
+    some [.name [71], .one, .pattern (.cons (.atom [66]) .nil), .pattern (.cons (.atom [88]) .nil)] := by
+  decide
 
 end C13
